@@ -68,9 +68,9 @@ def run(prog: Program) -> Results:
     # the parameter part of a lambda: identifier "@" formals / formals "@" identifier
     r1.instances += 1
     pn = prog.func("_parse_named_argument_set")
-    txt = norm(pn.node)
+    txt = alpha(pn.node, pn.node, anonymous=True)
     collects = any(isinstance(c, ast.Call) and callee(c) in (COLLECT1 | COLLECT2 | {"append_comment_between"}) for c in ast.walk(pn.node))
-    filters_out = "child.type != 'comment'" in txt
+    filters_out = "$.type != 'comment'" in txt
     ok = collects or not filters_out
     r1.ob(ok, {"class": "FunctionDefinition", "gap": "identifier -> @ -> formals", "routes": []})
     if not ok:
